@@ -237,6 +237,135 @@ Proof.
     destruct (H2 _ Ht) as [g [Hg1 Hg2]]. exists g. split; [|exact Hg2]. apply in_app_iff. right. exact Hg1.
 Qed.
 
+(* ------------------------------------------------------------------ 3b. values are >= the Rips value (max pairwise distance) *)
+Lemma expand_nonneg blk verts l : forall K, (forall s f, In (s, f) K -> 0 <= f) ->
+  forall s f, In (s, f) (expand blk verts l K) -> 0 <= f.
+Proof.
+  induction l as [|l IH]; intros K G s f H; simpl in H; [destruct H|].
+  assert (G' : forall s f, In (s, f) (expand_level blk verts K) -> 0 <= f).
+  { intros s' f' H'. apply expand_level_spec in H'. destruct H' as [v [t [Ht [_ [_ [Hm _]]]]]].
+    apply max_facets_spec in Hm. destruct Hm as [Hm _]. destruct t as [t0 g0]. simpl in Hm.
+    eapply Qle_trans; [exact (G _ _ Ht)|exact Hm]. }
+  apply in_app_iff in H. destruct H as [H|H]; [exact (G' _ _ H)|exact (IH _ G' _ _ H)].
+Qed.
+Lemma sparse_nonneg N pi mini maxi dim_max s f :
+  In (s, f) (sparse_complex d eps N pi mini maxi dim_max) -> 0 <= f.
+Proof.
+  unfold sparse_complex. rewrite !in_app_iff.
+  assert (GE : forall s f, In (s, f) (all_edges d eps maxi (kept d mini pi)) -> 0 <= f).
+  { intros s' f' H'. apply all_edges_spec in H'. destruct H' as [pi0 [li [pj [lj [_ [_ [_ He]]]]]]].
+    apply edge_val_ge in He; [|exact eps_pos]. eapply Qle_trans; [apply d_nonneg|exact He]. }
+  intros [H|[H|H]].
+  - apply in_map_iff in H. destruct H as [[v l] [H _]]. inversion H; subst. apply Qle_refl.
+  - exact (GE _ _ H).
+  - exact (expand_nonneg _ _ _ _ GE _ _ H).
+Qed.
+
+Hypothesis d_diag : forall u, d u u == 0.
+Lemma fold_max_le x r f : forall init, init <= f -> (forall y, In y r -> d x y <= f) ->
+  fold_left (fun a y => qmax a (d x y)) r init <= f.
+Proof.
+  induction r as [|y r IH]; intros init Hi Hr; simpl; [exact Hi|].
+  apply IH; [|intros z Hz; apply Hr; right; exact Hz].
+  unfold qmax. destruct (Qle_bool init (d x y)); [apply Hr; left; reflexivity|exact Hi].
+Qed.
+Lemma rips_val_le s f : 0 <= f -> in_rips d s f -> rips_val d s <= f.
+Proof.
+  intros Hf. induction s as [|x r IH]; intro H; simpl; [exact Hf|].
+  apply fold_max_le.
+  - apply IH. intros u v Hu Hv N. apply H; [right; exact Hu|right; exact Hv|exact N].
+  - intros y Hy. destruct (Nat.eq_dec x y) as [E|E]; [subst; rewrite d_diag; exact Hf|].
+    apply H; [left; reflexivity|right; exact Hy|exact E].
+Qed.
+Theorem sparse_value_ge_rips_value N pi mini maxi dim_max s f :
+  In (s, f) (sparse_complex d eps N pi mini maxi dim_max) -> rips_val d s <= f.
+Proof.
+  intro H. apply rips_val_le; [exact (sparse_nonneg _ _ _ _ _ _ _ H)|exact (sparse_in_rips _ _ _ _ _ _ _ H)].
+Qed.
+
+(* ------------------------------------------------------------------ 3c. simplices are strictly increasing lists of kept points *)
+Lemma In_firstn {A} (x : A) n : forall l, In x (firstn n l) -> In x l.
+Proof. induction n as [|n IH]; intros [|y l]; simpl; try tauto. intros [H|H]; [left; exact H|right; apply IH; exact H]. Qed.
+Lemma NoDup_firstn {A} n : forall l : list A, NoDup l -> NoDup (firstn n l).
+Proof.
+  induction n as [|n IH]; intros [|y l] H; simpl; try constructor.
+  - inversion H; subst. intro Hin. apply In_firstn in Hin. contradiction.
+  - inversion H; subst. apply IH. assumption.
+Qed.
+Lemma NoDup_fst_combine {A B} (a : list A) : forall b : list B, NoDup a -> NoDup (map fst (combine a b)).
+Proof.
+  induction a as [|x a IH]; intros [|y b] H; simpl; try constructor.
+  - inversion H; subst. intro Hin. apply in_map_iff in Hin. destruct Hin as [[x' y'] [E Hin]]. simpl in E. subst x'.
+    apply in_combine_l in Hin. contradiction.
+  - inversion H; subst. apply IH. assumption.
+Qed.
+Lemma kept_NoDup mini pi : NoDup pi -> NoDup (map fst (kept d mini pi)).
+Proof. intro H. unfold kept. apply NoDup_fst_combine. apply NoDup_firstn. exact H. Qed.
+Lemma kept_In mini pi v : In v (map fst (kept d mini pi)) -> In v pi.
+Proof.
+  unfold kept. intro H. apply in_map_iff in H. destruct H as [[x y] [E H]]. simpl in E. subst x.
+  apply in_combine_l in H. apply In_firstn in H. exact H.
+Qed.
+
+Lemma all_edges_neq maxi vs s a : NoDup (map fst vs) -> In (s, a) (all_edges d eps maxi vs) ->
+  exists pi pj, In pi (map fst vs) /\ In pj (map fst vs) /\ pi <> pj /\ s = sort2 pi pj.
+Proof.
+  induction vs as [|[pi li] r IH]; simpl; [tauto|]. intros ND H. apply NoDup_cons_iff in ND. destruct ND as [ND1 ND2].
+  apply in_app_iff in H. destruct H as [H|H].
+  - apply edges_from_spec in H. destruct H as [pj [lj [E1 [E2 _]]]].
+    assert (Hj : In pj (map fst r)) by (apply in_map_iff; exists (pj, lj); split; [reflexivity|exact E1]).
+    exists pi, pj. split; [left; reflexivity|]. split; [right; exact Hj|]. split; [|exact E2].
+    intro E. subst pj. contradiction.
+  - destruct (IH ND2 H) as [pi' [pj [A1 [A2 [A3 A4]]]]]. exists pi', pj. split; [right; exact A1|]. split; [right; exact A2|]. split; assumption.
+Qed.
+Lemma sort2_increasing a b : a <> b -> increasingb (sort2 a b) = true.
+Proof.
+  intro N. unfold sort2. destruct (a <? b)%nat eqn:E; simpl; rewrite andb_true_r.
+  - exact E.
+  - apply Nat.ltb_lt. apply Nat.ltb_ge in E. lia.
+Qed.
+
+Definition wfs (verts : list nat) (K : cplx) : Prop :=
+  forall s f, In (s, f) K -> increasingb s = true /\ s <> [] /\ forall v, In v s -> In v verts.
+
+Lemma expand_level_wfs blk verts K : wfs verts K -> wfs verts (expand_level blk verts K).
+Proof.
+  intros G s f H. unfold expand_level in H. rewrite in_flat_map in H. destruct H as [t [Ht H]].
+  rewrite in_flat_map in H. destruct H as [v [Hv H]]. unfold cand in H.
+  destruct t as [t0 g0]. cbn [fst snd] in H. destruct t0 as [|h r]; [destruct H|].
+  destruct (v <? h)%nat eqn:E; [|destruct H].
+  destruct (max_facets K (facets (v :: h :: r)) g0) as [f'|]; [|destruct H].
+  destruct (blk (v :: h :: r) f'); [destruct H|]. destruct H as [H|[]]. inversion H; subst.
+  destruct (G _ _ Ht) as [G1 [_ G3]]. split; [|split; [discriminate|]].
+  - change (((v <? h)%nat && increasingb (h :: r)) = true). rewrite E. exact G1.
+  - intros x [Hx|Hx]; [subst; exact Hv|apply G3; exact Hx].
+Qed.
+Lemma expand_wfs blk verts l : forall K, wfs verts K -> wfs verts (expand blk verts l K).
+Proof.
+  induction l as [|l IH]; intros K G; simpl; [intros s f []|].
+  intros s f H. apply in_app_iff in H. destruct H as [H|H].
+  - exact (expand_level_wfs blk verts K G s f H).
+  - exact (IH _ (expand_level_wfs blk verts K G) s f H).
+Qed.
+
+Theorem sparse_simplices_wf N pi mini maxi dim_max s f : NoDup pi ->
+  In (s, f) (sparse_complex d eps N pi mini maxi dim_max) ->
+  increasingb s = true /\ s <> [] /\ forall v, In v s -> In v pi.
+Proof.
+  intros ND. unfold sparse_complex. rewrite !in_app_iff.
+  assert (GE : wfs (map fst (kept d mini pi)) (all_edges d eps maxi (kept d mini pi))).
+  { intros s' f' H'. apply all_edges_neq in H'; [|apply kept_NoDup; exact ND].
+    destruct H' as [a [b [Ha [Hb [Hn Hs]]]]]. subst s'. split; [apply sort2_increasing; exact Hn|]. split.
+    - unfold sort2. destruct (a <? b)%nat; discriminate.
+    - intros v Hv. apply sort2_in in Hv. destruct Hv; subst; assumption. }
+  intros [H|[H|H]].
+  - apply in_map_iff in H. destruct H as [[v l] [H Hin]]. inversion H; subst. split; [reflexivity|]. split; [discriminate|].
+    intros x [Hx|[]]. subst x. apply (kept_In mini). apply in_map_iff. exists (v, l). split; [reflexivity|exact Hin].
+  - destruct (GE _ _ H) as [A1 [A2 A3]]. split; [exact A1|]. split; [exact A2|]. intros v Hv. apply (kept_In mini). apply A3. exact Hv.
+  - destruct (expand_wfs _ _ _ _ GE _ _ H) as [A1 [A2 A3]]. split; [exact A1|]. split; [exact A2|].
+    intros v Hv. apply (kept_In mini). apply A3. exact Hv.
+Qed.
+
 (* ------------------------------------------------------------------ 4. insertion radii of a farthest-point order *)
 Fixpoint noninc (l : list (option Q)) : Prop :=
   match l with a :: ((b :: _) as r) => ole b a = true /\ noninc r | _ => True end.
